@@ -101,6 +101,10 @@ var cfgs = map[string]cfgDef{
 	"cover":       {"cover", ""},
 	"fuzz":        {"fuzz", ""},
 	"386":         {"386", ""},
+	// the byte-wise sponge input/output routines every target other than
+	// amd64 / 386 / ppc64le uses (internal/sha3/xor_generic.go), selected on
+	// this machine through the repository's own `appengine` build tag
+	"appengine": {"appengine", ""},
 }
 
 var (
@@ -728,6 +732,8 @@ func build(u *Unit, kind, bin, bdir, overlay string) (string, error) {
 	switch kind {
 	case "purego":
 		tags += ",purego"
+	case "appengine":
+		tags += ",appengine"
 	case "race":
 		args = append(args, "-race")
 	case "checkptr":
